@@ -351,7 +351,11 @@ func runC08(c *vk.Ctx) {
 		cfg := genConfig(r, a, "s")
 		cfg.First = a.Funcs["_first"] != nil
 		cfg.ResetOnEmptyInput = r.Chance(1, 4)
+		cfg.PersisterContent = i%5 == 4
 		c.Begin(key)
+		if cfg.PersisterContent {
+			c.Count("explorations_with_client_created_state_and_cache", 1)
+		}
 		if cfg.First {
 			c.Count("explorations_with_first_function", 1)
 		}
